@@ -50,7 +50,8 @@ package domutil
 //@ func GetOutputNodes$1(node)
 //@   requires node != nil && outputNodes != nil
 //@   ensures [C04,C05] #invisible-elements-excluded implies(node.Type == 3 && !IsProbablyVisible(node), !result && len(*outputNodes) == old(len(*outputNodes)))
-//@   ensures [C07] #visible-kept implies(node.Type == 3 && IsProbablyVisible(node), result && len(*outputNodes) == old(len(*outputNodes)) + 1)
+//@   ensures [C04,C05] #script-style-excluded implies(node.Type == 3 && (dom.TagName(node) == "script" || dom.TagName(node) == "style"), !result && len(*outputNodes) == old(len(*outputNodes)))
+//@   ensures [C07] #visible-kept implies(node.Type == 3 && IsProbablyVisible(node) && dom.TagName(node) != "script" && dom.TagName(node) != "style", result && len(*outputNodes) == old(len(*outputNodes)) + 1)
 //@   ensures [C04] #only-text-and-elements implies(node.Type != 3 && node.Type != 1, !result && len(*outputNodes) == old(len(*outputNodes)))
 
 // HasAncestor: trusted summary (two loops over a local map; not verified): with a single tag name the
